@@ -246,6 +246,9 @@ func (d *Decls) ArrayOf(idx, elem string) string {
 // ListOf instantiates the cons-list theory for an element sort.
 func (d *Decls) ListOf(elem string) string {
 	n := "L_" + sanitize(elem)
+	if elem == "S_reflect.StructField" {
+		return n // declared by the reflect layout theory (mutually recursive with RType)
+	}
 	if d.sorts[n] == nil {
 		d.sorts[n] = &SortInfo{Kind: "list", Elem: elem}
 		d.instantiate("List", map[string]string{"E": elem, "L": n, "e": sanitize(elem)})
@@ -439,6 +442,7 @@ type Oblig struct {
 	Src     string // contract clause text or Go construct
 	Cover   bool   // cover query: must be satisfiable
 	Induct  bool   // lemma of the spec library: proved by structural induction
+	Quick   bool   // short time limit (listed known finding)
 	Prelude string
 
 	// result
@@ -532,7 +536,7 @@ func runSolver(ctx context.Context, s SolverSpec, file string, ms int) solveResu
 // discharge races the solvers on one obligation. unsat from any solver proves it
 // (covers: sat from any solver). A definite opposite answer stops the race.
 func discharge(o *Oblig, dir string, idx int, ms int, all bool) {
-	if o.Cover {
+	if o.Cover || o.Quick {
 		// vacuity guards are best effort: a short time limit, "undecided" is not a failure
 		ms = ms / 5
 		all = false
